@@ -113,6 +113,17 @@ func genInfoModel(repo string) (genFile, error) {
 			}
 		}
 	}
+	// key order (stable), so that a harmless reordering of the literal does not change the facts
+	sort.SliceStable(rows, func(i, j int) bool {
+		pi, _ := strconv.Atoi(rows[i].pen)
+		pj, _ := strconv.Atoi(rows[j].pen)
+		if pi != pj {
+			return pi < pj
+		}
+		ii, _ := strconv.Atoi(rows[i].id)
+		ij, _ := strconv.Atoi(rows[j].id)
+		return ii < ij
+	})
 	idx := map[string]int{}
 	for i, n := range iota {
 		idx[n] = i
@@ -212,7 +223,7 @@ func genInfoModel(repo string) (genFile, error) {
 		}
 		b.WriteString("\n")
 	}
-	b.WriteString("]\n\n/-- built-in InfoModel literal: (pen, id, FieldID, name, type name) in source order -/\ndef builtin : List (Nat × Nat × Nat × String × String) := [\n")
+	b.WriteString("]\n\n/-- built-in InfoModel literal: (pen, id, FieldID, name, type name) in key order -/\ndef builtin : List (Nat × Nat × Nat × String × String) := [\n")
 	for i, r := range rows {
 		fmt.Fprintf(&b, "  (%s, %s, %s, %s, %s)", r.pen, r.id, r.fid, leanStr(r.name), leanStr(r.typ))
 		if i+1 < len(rows) {
